@@ -210,6 +210,7 @@ func runC06(a *A) {
 	a.Rule("fnsafe/arg-index", 100, func() { a.ruleArgIndex() })
 	a.Rule("ownmap/singleton-state", 3, func() { a.ruleSingletonState() })
 	a.Rule("flow/cache-stores-success-only", 4, func() { a.ruleCacheStoresSuccessOnly() })
+	a.Rule("shape/whole-call-slice", 1, func() { a.ruleWholeCallSlice("stream") })
 	a.Rule("whomay/registry", 2, func() {
 		R := a.Named("functions", "FunctionRegistry")
 		fm := a.FieldOf(R, "functions")
